@@ -13,6 +13,52 @@ from nvsa.report import AnalysisError
 FID = "(f | id)"
 
 
+def _rename(N, subtree, old, new):
+    if old == new:
+        return
+    for n in subtree.find_all(N.Name):
+        if n.name == old:
+            n.name = new
+    for n in [subtree]:
+        tg = getattr(n, "target", None)
+        if isinstance(tg, N.Name) and tg.name == old:
+            tg.name = new
+
+
+def canonicalise(ts):
+    """Give the template-local variables of py/base.j2 that the rules talk about canonical names, found by *role* (what a
+    loop iterates, what a `set` is assigned from, parameter position) so that the rules do not depend on their spelling."""
+    N = ts.nodes
+    t = ts.get("py", "base.j2")
+    m = ts.macro(t, "data_schema")
+    typ = m.args[1].name
+    _rename(N, m, typ, "type")
+    for lp in list(m.find_all(N.For)):
+        it = xs(lp.iter)
+        if not isinstance(lp.target, N.Name):
+            continue
+        if it == "type.fields_except_padding" or (it == "type.fields" and lp.test is None):
+            _rename(N, lp, lp.target.name, "f")
+    for lp in list(m.find_all(N.For)):
+        if isinstance(lp.target, N.Name) and xs(lp.iter) == "type.fields" and lp.test is not None:
+            _rename(N, lp, lp.target.name, "z")
+    for a in list(m.find_all(N.Assign)):
+        if isinstance(a.target, N.Name) and xs(a.node) == "type.fields[0]":
+            _rename(N, m, a.target.name, "f")
+    am = ts.macro(t, "assign_array")
+    if len(am.args) >= 2:
+        _rename(N, am, am.args[0].name, "f")
+        am.args[0].name = "f"
+        _rename(N, am, am.args[1].name, "src")
+        am.args[1].name = "src"
+    for a in list(am.find_all(N.Assign)):
+        if isinstance(a.target, N.Name):
+            if xs(a.node) == "f.data_type":
+                _rename(N, am, a.target.name, "t")
+            elif isinstance(a.node, N.Const) and a.node.value in ("==", "<="):
+                _rename(N, am, a.target.name, "cmp")
+
+
 def _parse(path, what):
     import re
     txt = textwrap.dedent(path.text.replace("\t", "    "))
@@ -339,6 +385,7 @@ def run(ctx):
                     "the contents of nunavut_support.j2 (to_builtin / update_from_builtin) beyond name resolution (C06)"]
     ts = j2front.TemplateSet(ctx.root)
     px = pyfront.PyIndex(ctx.root)
+    canonicalise(ts)
     rule_validate(ctx, ts)
     rule_union(ctx, ts)
     rule_model(ctx, ts, px)
